@@ -9,10 +9,32 @@ import sys
 root, ids = sys.argv[1], sys.argv[2:]
 props = {json.loads(l)["id"]: json.loads(l) for l in open("/verif/properties.jsonl")}
 tmpl = open("/verif/tools/hunt_prompt.txt").read()
+known = json.load(open("/verif/known_findings.json"))["findings"]
+design = open("/verif/DESIGN.md").read().splitlines()
+
+
+def already(pid):
+    """second and later hunts: what is known already (repaired on this tree, or open, or a stated reading) - look elsewhere"""
+    out = []
+    for f in known:
+        if f["property"] == pid:
+            out.append("- (" + f["status"] + ") " + f["text"][:420])
+    a, b = design.index("### 9.1 Readings of the statements the checks commit to"), [i for i, l in enumerate(design) if l.startswith("### 9.2")][0]
+    for line in design[a:b]:
+        if line.startswith("| ") and pid in [c.strip() for c in line.split("|")[1].split(",")]:
+            out.append("- (how the statement is read; behaviour inside this reading is not a finding) " + line.split("|", 2)[2].strip(" |")[:1200])
+    return "\n".join(out)
+
+
 for pid in ids:
     wt = f"{root}/{pid}"
-    subprocess.run(["git", "-C", "/repo", "worktree", "add", "--detach", "-q", wt, "HEAD"], check=True)
+    if not os.path.isdir(wt):
+        subprocess.run(["git", "-C", "/repo", "worktree", "add", "--detach", "-q", wt, "HEAD"], check=True)
     os.makedirs(f"{wt}/_hunt", exist_ok=True)
     json.dump(props[pid], open(f"{wt}/_hunt/property.json", "w"), indent=1)
-    open(f"{wt}/_hunt/TASK.md", "w").write(tmpl.replace("{WT}", wt))
+    extra = already(pid) if os.environ.get("HUNT_ROUND", "1") != "1" else ""
+    open(f"{wt}/_hunt/TASK.md", "w").write(tmpl.replace("{WT}", wt) + (
+        "\n\nAn earlier review of this property already produced the following. Defects marked (fixed) are repaired on the tree you see; do not "
+        "report them or their close relatives again - look for something DIFFERENT (other code paths, other argument forms, other histories, "
+        "other public entry points in the anchored files):\n" + extra + "\n" if extra else ""))
 print("prepared", ids)
